@@ -92,6 +92,10 @@ def layout(rng, x, kind=None):
         return np.ascontiguousarray(x).copy(), "C"
     if kind == "F":
         return np.asfortranarray(x).copy(order="F"), "F"
+    if kind == "readonly":
+        y = np.ascontiguousarray(x).copy()
+        y.flags.writeable = False          # e.g. np.frombuffer / a read-only memory map
+        return y, "readonly"
     if kind == "strided":
         big = np.zeros((x.shape[0] * 2,) + x.shape[1:], dtype=x.dtype)
         big[::2] = x
